@@ -372,7 +372,7 @@ func c03Sequences(r *vf.Run) {
 		ids = append(ids, fmt.Sprintf("seq%02d", i))
 	}
 	// two regression sequences from the defect that was repaired
-	ids = append(ids, "regress-xor", "sep-names", "absent-storm")
+	ids = append(ids, "regress-xor", "sep-names", "absent-storm", "near-names")
 	r.ForEach(ids, 12, func(id string) {
 		rng := r.RNG(id)
 		var ds *gen.Dataset
@@ -408,6 +408,43 @@ func c03Sequences(r *vf.Run) {
 			for _, e := range []*oracle.Expr{oracle.Eq("a", "1"), oracle.Not(oracle.Eq("b", "0")), oracle.And(oracle.Eq("a", "1"), oracle.Eq("ab", "1")), oracle.And(oracle.Eq("ab", "1"), oracle.Eq("a", "1"))} {
 				for _, l := range lists {
 					qs = append(qs, seqQuery{e: e, gb: l})
+				}
+			}
+		} else if id == "near-names" {
+			// (round 6) column names and values that coincide under the usual normalisations -- case folding, trimmed
+			// blanks, '_' for '-', composed and decomposed accents -- each with its own distribution over the rows. To the
+			// index they are different strings; a cache key or a lookup that normalises further than the data does mixes
+			// them up, visibly only when both spellings are asked on one open index. A spelling that is in no row
+			// ("eNV") is an unknown column.
+			names := []string{"Env", "env", "ENV", " env", "env ", "a_b", "a-b", "caf\u00e9", "cafe\u0301"}
+			vals := []string{"prod", "Prod", "PROD", " prod", "prod ", "te_st", "te-st"}
+			ds = &gen.Dataset{ID: id}
+			for i := 0; i < 630; i++ {
+				row := oracle.Row{}
+				for k, n := range names {
+					if (i+2*k)%5 != 0 {
+						row[n] = vals[(i/(k+1)+k)%len(vals)]
+					}
+				}
+				ds.Rows = append(ds.Rows, row)
+			}
+			ds.Index()
+			for pass := 0; pass < 2; pass++ {
+				for _, v := range vals {
+					for _, n := range names {
+						l := oracle.Eq(n, v)
+						qs = append(qs, seqQuery{e: l})
+						if pass == 1 {
+							qs = append(qs, seqQuery{e: oracle.Not(l)}, seqQuery{e: oracle.And(l, oracle.Not(oracle.Eq("env", "PROD")))}, seqQuery{e: l, gb: []string{n}})
+						}
+					}
+				}
+				for i, n := range names {
+					m := names[(i+1)%len(names)]
+					qs = append(qs, seqQuery{e: oracle.Or(oracle.Eq(n, "prod"), oracle.Eq(m, "Prod")), gb: []string{m, n}}, seqQuery{e: oracle.Or(oracle.Eq(m, "prod"), oracle.Eq(n, "Prod")), gb: []string{n, m}})
+				}
+				for _, n := range []string{"eNV", "ENv", "env  ", "A_B", "cafe"} {
+					qs = append(qs, seqQuery{e: oracle.Eq(n, "prod")}, seqQuery{e: oracle.Eq("env", "prod"), gb: []string{n}})
 				}
 			}
 		} else if id == "absent-storm" {
